@@ -44,8 +44,7 @@ Print Assumptions c15_structural.
 (* Grammar, tag level (partial): for every oracle instance within the envelope, every
    attribute-list tag Marshal prints for a valid value is "#TAG:" ++ NAME=value[,NAME=value]*
    ++ "\n" with a non-empty list, names free of '=' and leading blanks, quoted values free of
-   quotes, unquoted values free of commas, nothing containing CR or LF; EXT-X-SERVER-CONTROL only
-   with CAN-BLOCK-RELOAD (finding F4 (c)).
+   quotes, unquoted values free of commas, nothing containing CR or LF.
    Missing for the full c15_grammar: an independent recogniser strict_ok in Gallina for the
    line-level grammar and the lexical types; that part is checked by the independent Go
    grammar checker of the harness on every Marshal output. *)
@@ -61,17 +60,10 @@ Theorem c15_grammar_partial_attribute_lists : forall (O : oracles), oracle_ok O 
   /\ (forall t, wf_variant t = true ->
         exists l, l <> nil /\ forallb attr_ok2 l = true
                   /\ variant_marshal O t = "#EXT-X-STREAM-INF:" ++ render_attrs l ++ lf ++ v_uri t ++ lf)
-  /\ (forall t, wf_server_control t = true -> sc_canblockreload t = true ->
+  /\ (forall t, wf_server_control t = true ->
         attr_line "#EXT-X-SERVER-CONTROL:" (server_control_marshal O t)).
 Proof. exact tag_lines_are_attribute_lists. Qed.
 Print Assumptions c15_grammar_partial_attribute_lists.
-
-(* Finding F4 (c) as a grammar defect: a valid value whose attribute list starts with a comma *)
-Theorem c15_grammar_refuted_server_control :
-  exists t, wf_server_control t = true
-            /\ server_control_marshal z_oracles t = "#EXT-X-SERVER-CONTROL:,PART-HOLD-BACK=1.00000" ++ lf.
-Proof. exact grammar_refuted_server_control. Qed.
-Print Assumptions c15_grammar_refuted_server_control.
 
 (* the hypothesis of the structural theorems is satisfiable: a text that decodes *)
 Theorem c15_example_decodes :
